@@ -422,11 +422,11 @@ Record verdict := mkverdict {
   v_c01 : bool; v_c06 : bool; v_c11 : bool; v_c16 : bool
 }.
 
-Definition check_case (c : case) : verdict :=
+Definition check_case_v (fx : bool) (c : case) : verdict :=
   let g := c_cfg c in
   let tbl := map unrle (c_tbl c) in
   let os := map (expand tbl) (c_obs c) in
-  let ms := trace code_variant (cK g) (crev g) (init (cnb g) (cpunch g)) (all_applied (c_ops c)) in
+  let ms := trace fx (cK g) (crev g) (init (cnb g) (cpunch g)) (all_applied (c_ops c)) in
   mkverdict (first_diff 0 (canon_all (c_ops c) ms) (canon_all (c_ops c) os))
             (c01_oracle g (c_ops c) os) (c06_oracle g (c_ops c) os)
             (c11_oracle g (c_ops c) os) (c16_oracle g (c_ops c) os).
@@ -434,18 +434,31 @@ Definition check_case (c : case) : verdict :=
 Definition b2n (b : bool) : nat := if b then 1 else 0.
 
 (** (case index, step, field, c01, c06, c11, c16) for every case that differs or fails an oracle *)
-Fixpoint bad_cases (i : nat) (cs : list case) : list (nat * (nat * nat) * (nat * nat * nat * nat)) :=
+Fixpoint bad_cases_v (fx : bool) (i : nat) (cs : list case)
+  : list (nat * (nat * nat) * (nat * nat * nat * nat)) :=
   match cs with
   | [] => []
   | c :: cs' =>
-      let v := check_case c in
-      let rest := bad_cases (S i) cs' in
+      let v := check_case_v fx c in
+      let rest := bad_cases_v fx (S i) cs' in
       let fl4 := (b2n (v_c01 v), b2n (v_c06 v), b2n (v_c11 v), b2n (v_c16 v)) in
       match v_diff v with
       | Some d => (i, d, fl4) :: rest
       | None => if v_c01 v && v_c06 v && v_c11 v && v_c16 v then rest else (i, (0, 0), fl4) :: rest
       end
   end.
+
+(** the implementation is compared with the variant named in Model.v *)
+Definition check_case := check_case_v code_variant.
+Definition bad_cases := bad_cases_v code_variant.
+
+(** the oracles evaluated on the MODEL's own trace of a case's operations (used to attribute a failure
+    on the implementation to a semantic variant) *)
+Definition model_verdict (fx : bool) (c : case) : nat * nat * nat * nat :=
+  let g := c_cfg c in
+  let ms := trace fx (cK g) (crev g) (init (cnb g) (cpunch g)) (all_applied (c_ops c)) in
+  (b2n (c01_oracle g (c_ops c) ms), b2n (c06_oracle g (c_ops c) ms),
+   b2n (c11_oracle g (c_ops c) ms), b2n (c16_oracle g (c_ops c) ms)).
 
 (** ** coverage predicates, evaluated on the model *)
 (** bits: 1 a hole was sent  2 a hole was sent while a user-created snapshot exists (SnapIndx >= 1)
@@ -513,8 +526,9 @@ Fixpoint bits (l : list bool) (w : nat) : nat :=
   | b :: r => (if b then w else 0) + bits r (2 * w)
   end.
 
-Definition case_flags (c : case) : nat :=
+Definition case_flags_v (fx : bool) (c : case) : nat :=
   let g := c_cfg c in
-  bits (flags_run code_variant (cK g) (crev g) (init (cnb g) (cpunch g)) (c_ops c) []) 1.
+  bits (flags_run fx (cK g) (crev g) (init (cnb g) (cpunch g)) (c_ops c) []) 1.
 
-Definition coverage (cs : list case) : list nat := map case_flags cs.
+Definition coverage_v (fx : bool) (cs : list case) : list nat := map (case_flags_v fx) cs.
+Definition coverage := coverage_v code_variant.
